@@ -384,7 +384,7 @@ pub fn c02_checks() -> Vec<Box<dyn DynCheck>> {
 
 // ------------------------------------------------------------------------------ C06
 
-pub const C06_RULE: &str = "positions biased to mates, stalemates, single/double/discovered checks, pins, en-passant and promotion checks (cage / pin-check / ep / promotion / castle themes, placements, reachable walks), half-move clock < 40 and no registered repetition; with a brand-new generator per position and with one generator serving a whole walk: player_is_in_check and current_player_is_in_check == reference 'king attacked'; game_ending (and Game::check_game_over_for_current_turn on a slice) == Checkmate iff in check with no legal move, Stalemate iff not in check with no legal move, None otherwise; every move of generate_moves_and_lazily_update_chess_move_effects carries effect Check/Checkmate/None == classification of the reference successor (never NotYetCalculated). Non-trivial = position is check/mate/stalemate or has a move giving check or mate (labels separate discovered, double, en-passant, promotion and castling checks); distinct = position fingerprint.";
+pub const C06_RULE: &str = "positions biased to mates, stalemates, single/double/discovered checks, pins, en-passant and promotion checks (cage / pin-check / ep / promotion / castle themes, placements, reachable walks), half-move clock below the draw threshold (0..39, or 99 in one case of eight) and no registered repetition; with a brand-new generator per position and with one generator serving a whole walk: player_is_in_check and current_player_is_in_check == reference 'king attacked'; game_ending (and Game::check_game_over_for_current_turn on a slice) == Checkmate iff in check with no legal move, Stalemate iff not in check with no legal move, None otherwise; every move of generate_moves_and_lazily_update_chess_move_effects carries effect Check/Checkmate/None == classification of the reference successor (never NotYetCalculated). Non-trivial = position is check/mate/stalemate or has a move giving check or mate (labels separate discovered, double, en-passant, promotion and castling checks); distinct = position fingerprint.";
 
 fn classify(pos: &Pos, m: &Mv) -> (ChessMoveEffect, Vec<&'static str>) {
     let after = pos.make(m);
@@ -521,9 +521,11 @@ fn c06_node(pos: &Pos, board: &mut Board, g: &mut MoveGenerator, st: &mut Stats,
 }
 
 fn verdict_position() -> BoxedStrategy<String> {
+    // below the draw threshold; one case in eight sits right under it (clock 99), where the
+    // successor of every quiet move already has clock 100
     let low_clock = |r: gen::RawPos| {
         let mut r = r;
-        r.half %= 40;
+        r.half = if r.half % 8 == 7 { 99 } else { r.half % 40 };
         gen::build(&r).fen()
     };
     prop_oneof![
